@@ -53,8 +53,10 @@ type snapModel struct {
 
 type c10Checker struct{}
 
-func (c *c10Checker) AfterRequest(x *Exec, idx int, h *HistItem, res *RunResult) *Violation { return nil }
-func (c *c10Checker) Finish(x *Exec) *Violation                                             { return nil }
+func (c *c10Checker) AfterRequest(x *Exec, idx int, h *HistItem, res *RunResult) *Violation {
+	return nil
+}
+func (c *c10Checker) Finish(x *Exec) *Violation { return nil }
 
 func binKey(r *Rng) string {
 	n := r.Range(1, 6)
